@@ -10,6 +10,7 @@ import JoblibModel.IOUtil
   `<target>` : `path:<s>` | `pathlib:<s>` | `file` | `bytesio` | `other`
   `<s>`      : code points in decimal joined by `.`, `-` for the empty string
 * `detect <hex>` → `compat` | `method <name>` | `not-compressed`   (`_detect_compressor` on these first bytes)
+* `sniff <peekable 0|1> <bytes peek() returns> <pos> <hex of the whole file>` → `<detected> pos=<cursor afterwards>`   (`_detect_compressor` on an open file at `pos`)
 * `start <hex>`  → `yes` | `no`                                     (`isPickleStart`)
 * `tables`       → the generated tables the driver was built from
 Anything else → `bad-op`. -/
@@ -113,6 +114,12 @@ def handle (line : String) : String :=
     match parseHex h with
     | some b => showDetected (detect b)
     | none => "bad-op"
+  | ["sniff", pk, pkd, pos, h] =>
+    match (if pk = "1" then some true else if pk = "0" then some false else none), pkd.toNat?, pos.toNat?, parseHex h with
+    | some pk, some pkd, some pos, some b =>
+      let r := sniff pk pkd b pos
+      showDetected r.1 ++ " pos=" ++ toString r.2
+    | _, _, _, _ => "bad-op"
   | ["start", h] =>
     match parseHex h with
     | some b => if isPickleStart b then "yes" else "no"
